@@ -20,7 +20,9 @@ EXPLANATION = (
 ASSUMPTIONS = ["encoding_rs's *_without_replacement decoders are correct", "equality of decoded content across encodings is not decided"]
 
 LOSSY = ("Encoding::decode", "Encoding::decode_with_bom_removal", "Encoding::decode_without_bom_handling", "Decoder::decode_to_string",
-         "Decoder::decode_to_utf8", "Decoder::decode_to_str", "from_utf8_lossy", "from_utf8_unchecked", "from_utf8_lossy_owned")
+         "Decoder::decode_to_utf8", "Decoder::decode_to_str", "from_utf8_lossy", "from_utf8_unchecked", "from_utf8_lossy_owned",
+         # decoders that sniff a byte-order mark in the *payload* and switch encoding: a payload is not a document start
+         "Encoding::new_decoder", "Encoding::new_decoder_with_bom_removal")
 
 
 def r1_no_lossy(ctx):
@@ -38,7 +40,7 @@ def r1_no_lossy(ctx):
                 if name_is(dd, "decode_without_bom_handling_and_without_replacement", "decode_to_string_without_replacement", "from_utf8"):
                     good += 1
         for b, t in hits:
-            ctx.ob("R1", "lossy:%s:%s" % (sym.short(strip_generics(b.path)), sym.short(callee_of(t)[0])), False, "a decoder that substitutes U+FFFD for malformed input is called; malformed bytes must give a decoding error", loc=b.loc(t["s"]), config=cfg)
+            ctx.ob("R1", "lossy:%s:%s" % (sym.short(strip_generics(b.path)), sym.short(callee_of(t)[0])), False, "a decoder that substitutes U+FFFD for malformed input, or that re-sniffs a byte-order mark inside a payload, is called; payloads are decoded with the reader's encoding and malformed bytes must give a decoding error", loc=b.loc(t["s"]), config=cfg)
         ctx.ob("R1", "no-lossy-decoder", not hits, "no call of a replacing decoder in the crate (%d bodies scanned)" % len(F.bodies), config=cfg)
         ctx.ob("R1", "positive-control", good >= 2, "the scan sees decoder calls at all: %d calls of the non-replacing decoders / str::from_utf8 found" % good, config=cfg)
         if "encoding" in F.features:
